@@ -71,6 +71,13 @@ def compare_one(man_path):
         if ref.find(name) is None:
             out.append((f"A|ref-name-not-found|enc{enc}", f"reference lookup (own hash + probing) does not find {name!r}", man["cfg"]))
             continue
+        # hash-entry fields: language id in the locale field, platform 0
+        ents = ref.hash_entries(name)
+        cnt["a_hash_entries"] = cnt.get("a_hash_entries", 0) + len(ents)
+        want_loc = f.get("locale", 0)
+        if not any(loc == want_loc and plat == 0 for loc, plat, _ in ents):
+            out.append((f"A|hash-entry-fields|locale={'neutral' if want_loc == 0 else 'language'}", f"hash entry of {name!r}: (locale, platform) = {[(hex(l), hex(p)) for l, p, _ in ents]}, added with locale {want_loc:#x}",
+                        {"cfg": man["cfg"], "file": name, "locale": want_loc}))
         # the format as published first; then the named deviations, only to *diagnose* what a mismatch is made of
         attempts = [((True, "plain"), None), ((True, "padded-dword"), "tail-encrypted"), ((False, "plain"), "fullpath-key"), ((False, "padded-dword"), "fullpath-key+tail-encrypted")]
         verdict, first_err = "none", None
@@ -160,12 +167,16 @@ def gen_ref_archive(args):
         # other levels change the FLEVEL bits / the bzip2 block-size digit
         zp = [None, ("stormlib",), (rng.choice([1, 9]), rng.choice([9, 10, 12, 14, 15]))][(i + k // 3) % 3]
         zstats[str(zp)] = zstats.get(str(zp), 0) + 1
-        files.append(refmpq.RefFile(name, data, method, encm > 0, encm == 2, single and n > 0, zparams=zp))
+        # sector checksums in the published layout (offset table with one more entry, checksum sector behind the data) on
+        # compressed multi-sector files of plain archives; a language id on a few entries (lookups with the neutral locale find them)
+        crc = method != 0 and encm == 0 and not single and n > ss and i % 2 == 1
+        loc = [0, 0, 0, 0x409, 0x407][(i + k) % 5] if i >= 4 else 0
+        files.append(refmpq.RefFile(name, data, method, encm > 0, encm == 2, single and n > 0, zparams=zp, sector_crc=crc, locale=loc))
         p = os.path.join(outdir, f"b-{k}.f{i}")
         with open(p, "wb") as fh:
             fh.write(data)
         fclass = "FILL"
-        mf.append({"name": name, "content": p, "len": n, "fclass": fclass, "haspath": bool(comp), "multi": n > ss and not (single and n > 0)})
+        mf.append({"name": name, "content": p, "len": n, "fclass": fclass, "haspath": bool(comp), "multi": n > ss and not (single and n > 0), "sector_crc": crc, "locale": loc})
     n_entries = len(files) + (1 if listfile else 0)
     hs = 4
     while hs < n_entries + deleted + 1:
